@@ -95,7 +95,10 @@ where
     }
 
     // Compute in parallel.
-    let results: Result<Vec<(Gas, usize, Memory, bool)>, _> = (0..compute_breadth)
+    //
+    // The results are first collected in index order: collecting a parallel iterator straight
+    // into a `Result` yields whichever error is observed first, which depends on scheduling.
+    let results: Vec<Result<(Gas, usize, Memory, bool), _>> = (0..compute_breadth)
         .into_par_iter()
         .map(|compute_index| {
             // Clone stack and push compute program index.
@@ -125,6 +128,7 @@ where
             .map(|gas| (gas, vm.pc, vm.memory, vm.halt))
         })
         .collect();
+    let results: Result<Vec<_>, _> = results.into_iter().collect();
 
     let oks = results.map_err(|e| OpError::Compute(ComputeError::Exec(Box::new(e))))?;
 
